@@ -1,8 +1,12 @@
 """Seeded generator of Circom functions and templates for the IR-level engines
 (propagation, SSA): all 20 infix and 3 prefix operators, ternaries, literals at
 the field boundaries, nested if/while/for, arrays updated element-wise, calls,
-signals and components. Mostly valid programs plus a small invalid stream
-(uninitialised reads)."""
+signals, components (declarations `component c = X(..)`, component arrays, port
+writes `c.in <== e`, port reads `c.out`, `c.out[i]`), array and signal dimensions
+that read variables, signals declared under control flow, loops whose trip count
+depends on a signal. Mostly valid programs plus a small invalid stream
+(uninitialised reads). Which of these features a run really produced is counted
+on the implementation's dumps by `propeng.features_of`, not here."""
 import random
 
 PRIMES = {
@@ -30,6 +34,7 @@ class Gen:
         self.sig_in = []
         self.sig_out = []
         self.sig_mid = []
+        self.comps = []         # (name, None) for a single component, (name, len) for a component array
         self.counter = 0
         self.depth_now = 0         # nesting depth of the block being generated
         self.outer_names = []      # scalar locals declared in enclosing blocks
@@ -52,7 +57,29 @@ class Gen:
         a = list(self.locals) + list(self.params)
         if signals_ok:
             a += self.sig_in + self.sig_mid
+            for (c, ln) in self.comps:          # an output port of a component is an unknown signal
+                a.append(self.port(c, ln, self.r.choice(["out", "out", "o2"])))
         return a
+
+    def port(self, c, ln, name):
+        r = self.r
+        base = c if ln is None else "%s[%s]" % (c, str(r.randrange(ln)) if r.random() < 0.7 or not self.locals else r.choice(self.locals))
+        self.features.add("comp-read")
+        if name == "o2":                        # an array port, read at a constant, a local or a signal index
+            k = r.random()
+            ix = str(r.randrange(3)) if k < 0.5 else (r.choice(self.locals) if (k < 0.75 and self.locals) else r.choice(self.sig_in or ["0"]))
+            return "%s.o2[%s]" % (base, ix)
+        return "%s.%s" % (base, name)
+
+    def dim(self):
+        """An array dimension: most often a literal, otherwise an expression that reads locals / parameters."""
+        r = self.r
+        names = [x for x in self.locals if x.startswith("v") or x.startswith("i")] + self.params
+        if not names or r.random() < 0.55:
+            return None
+        self.features.add("variable-dimension")
+        n = r.choice(names)
+        return r.choice(["%s", "%s + 1", "(%s + 2)", "%s * 2", "(%s - 1)"]) % n
 
     def expr(self, depth, signals_ok=True, arith_only=False):
         r = self.r
@@ -128,6 +155,9 @@ class Gen:
             ln = r.randrange(1, 4)
             self.arrays.append((n, ln))
             self.features.add("array-decl")
+            d = self.dim()
+            if d is not None:       # no initialiser: the elements are zero until assigned
+                return ["%svar %s[%s];" % (ind, n, d)]
             return ["%svar %s[%d] = [%s];" % (ind, n, ln, ", ".join(self.expr(1) for _ in range(ln)))]
         if c < 0.45:
             v = r.choice(self.locals + self.uninit)
@@ -149,6 +179,7 @@ class Gen:
             return ["%s%s[%s] = %s;" % (ind, n, idx, self.expr(2))]
         if c < 0.68 and depth > 0:
             self.features.add("if")
+            saved_sig = (list(self.sig_mid), list(self.comps))
             saved = (list(self.locals), list(self.uninit), list(self.arrays))
             saved_outer = list(self.outer_names)
             self.outer_names = [x for x in self.locals if x.startswith("v")]
@@ -157,6 +188,7 @@ class Gen:
             for _ in range(r.randrange(1, 3)):
                 out += self.stmt(depth - 1, in_loop)
             self.locals, un1, self.arrays = list(saved[0]), self.uninit, list(saved[2])
+            self.sig_mid, self.comps = list(saved_sig[0]), list(saved_sig[1])
             if r.random() < 0.5:
                 self.features.add("else")
                 out.append("%s} else {" % ind)
@@ -164,6 +196,7 @@ class Gen:
                 for _ in range(r.randrange(1, 3)):
                     out += self.stmt(depth - 1, in_loop)
                 self.locals, self.arrays = list(saved[0]), list(saved[2])
+                self.sig_mid, self.comps = list(saved_sig[0]), list(saved_sig[1])
             self.uninit = [u for u in saved[1]]
             self.depth_now -= 1
             self.outer_names = saved_outer
@@ -171,6 +204,7 @@ class Gen:
             return out
         if c < 0.8 and depth > 0:
             saved = (list(self.locals), list(self.uninit), list(self.arrays))
+            saved_sig = (list(self.sig_mid), list(self.comps))
             saved_outer = list(self.outer_names)
             self.outer_names = [x for x in self.locals if x.startswith("v")]
             self.depth_now += 1
@@ -183,17 +217,55 @@ class Gen:
             else:
                 self.features.add("while")
                 v = r.choice(self.locals)
-                out = ["%swhile (%s < %s) {" % (ind, v, self.literal())]
+                bound = self.literal()
+                if self.template and self.sig_in and r.random() < 0.3:     # the trip count depends on a signal
+                    self.features.add("signal-dependent-loop")
+                    bound = r.choice(self.sig_in)
+                out = ["%swhile (%s < %s) {" % (ind, v, bound)]
             for _ in range(r.randrange(1, 3)):
                 out += self.stmt(depth - 1, True)
             if k >= 0.5:
                 out.append("%s  %s = %s + 1;" % (ind, v, v))
             self.locals, self.uninit, self.arrays = saved
+            self.sig_mid, self.comps = saved_sig
             self.depth_now -= 1
             self.outer_names = saved_outer
             out.append("%s}" % ind)
             return out
         if self.template:
+            if c < 0.815 and self.comps:       # a write to an input port of a component (scalar port or element of an array port)
+                cn, ln = r.choice(self.comps)
+                base = cn if ln is None else "%s[%d]" % (cn, r.randrange(ln))
+                self.features.add("comp-write")
+                port = r.choice(["in", "in", "a[%d]" % r.randrange(2)])
+                op = r.choice(["<==", "<==", "<--"])
+                return ["%s%s.%s %s %s;" % (ind, base, port, op, self.expr(2, arith_only=(op == "<==")))]
+            if c < 0.83:                        # a signal or a component declared where the statement stands (possibly under control flow)
+                k = r.random()
+                if k < 0.5:
+                    sn = self.fresh("s")
+                    self.features.add("signal-decl-nested" if self.depth_now else "signal-decl")
+                    d = self.dim()
+                    if d is not None and r.random() < 0.5:
+                        return ["%ssignal %s[%s];" % (ind, sn, d)]       # an array of signals: not an atom
+                    self.sig_mid.append(sn)
+                    if r.random() < 0.5:
+                        return ["%ssignal %s;" % (ind, sn)]
+                    op = r.choice(["<==", "<--"])
+                    return ["%ssignal %s %s %s;" % (ind, sn, op, self.expr(2, arith_only=(op == "<==")))]
+                cn = self.fresh("c")
+                self.features.add("comp-decl")
+                args = ", ".join(self.expr(1, signals_ok=False) for _ in range(r.randrange(0, 3)))
+                if k < 0.8:
+                    self.comps.append((cn, None))
+                    return ["%scomponent %s = X(%s);" % (ind, cn, args)]
+                ln = r.randrange(1, 3)
+                self.comps.append((cn, ln))
+                d = self.dim()
+                out = ["%scomponent %s[%s];" % (ind, cn, d if d is not None else str(ln))]
+                for j in range(ln):
+                    out.append("%s%s[%d] = X(%s);" % (ind, cn, j, args))
+                return out
             if c < 0.86 and (self.sig_out + self.sig_mid):
                 s = r.choice(self.sig_out + self.sig_mid)
                 op = r.choice(["<--", "<==", "<--"])
@@ -225,6 +297,13 @@ class Gen:
             if r.random() < 0.5:
                 self.sig_mid.append("mid0")
                 lines.append("  signal mid0;")
+            if self.params and r.random() < 0.25:        # a signal array whose size reads a parameter
+                self.features.add("variable-dimension")
+                lines.append("  signal arrsig[%s + 1];" % r.choice(self.params))
+            if r.random() < 0.35:
+                self.features.add("comp-decl")
+                self.comps.append(("c0", None))
+                lines.append("  component c0 = X(%s);" % ", ".join(self.params[:r.randrange(0, 3)]))
         else:
             lines.append("function %s(%s) {" % (name, ", ".join(self.params)))
         for _ in range(r.randrange(2, self.size)):
@@ -323,12 +402,133 @@ def array_shape(rng, lit):
             % (n, rng.randrange(3), poly("in[1]"), rng.randrange(2), lit()))
 
 
+def component_shape(rng, lit, k=None):
+    """Components: declaration, writes to input ports, reads of output ports (scalar, array port at a constant /
+    local / signal index), component arrays filled in a loop, port values carried through locals and joins. An
+    output port is an unknown signal: a polynomial of degree 1 in the indeterminates of the template."""
+    n = rng.randrange(2, 4)
+    pw = lambda x: rng.choice(["%s" % x, "%s * %s" % (x, x), "%s * %s * %s" % (x, x, x), "%s + a" % x, "%s * a" % x, "%s * a * a" % x, "%s * 2" % x, "%s + %s" % (x, lit())])
+    k = rng.randrange(9) if k is None else k
+    if k == 0:     # a power of an output port
+        return ("template T(n) { signal input a; signal output out; component c = X(n); c.in <== a; out <-- %s; }" % pw("c.out"))
+    if k == 1:     # an array port read at a constant, a signal, a local index
+        ix = rng.choice(["sel", "sel", str(rng.randrange(n)), "n", "sel + 1", "j"])
+        return ("template T(n) { signal input a; signal input sel; signal output out; var j = %d; component c = X(n); c.in <== a; out <-- %s; }"
+                % (rng.randrange(n), pw("c.out[%s]" % ix)))
+    if k == 2:     # a component array filled in a loop, ports written and read element-wise
+        return ("template T(n) { signal input a; signal output out; component c[%d]; for (var i = 0; i < %d; i++) { c[i] = X(i); c[i].in <== a + i; } out <-- %s; }"
+                % (n, n, rng.choice(["c[0].out * c[1].out", "c[0].out * c[1].out * c[0].out", "c[1].out + a", "c[0].out", pw("c[%d].out" % rng.randrange(n))])))
+    if k == 3:     # a port value carried through a local that is updated in a loop / under a branch
+        return ("template T(n) { signal input a; signal output out; component c = X(); c.in <== a * a; var x = c.out; %s out <-- x%s; }"
+                % (rng.choice(["for (var i = 0; i < %d; i++) { x = x * c.out; }" % rng.randrange(0, 3), "if (n > %d) { x = x * c.out; }" % rng.randrange(3),
+                               "x = x * x;", "if (a == %d) { x = %s; }" % (rng.randrange(3), lit()), "x = x + c.out2;"]),
+                   rng.choice(["", " * a", " + a"])))
+    if k == 4:     # an element of a component array chosen by a signal or a parameter
+        return ("template T(n) { signal input a; signal input sel; signal output out; component c[%d]; c[0] = X(); c[1] = X(); c[0].in <== a; c[1].in <== sel; out <-- c[%s].out%s; }"
+                % (2, rng.choice(["sel", "n", "0", "1", "sel * 0"]), rng.choice(["", " * a", " * c[0].out"])))
+    if k == 5:     # ports in conditions and ternaries: the merged value depends on an unknown signal
+        return ("template T(n) { signal input a; signal output out; component c = X(n); c.in <== a; var x = %s; if (c.out == %d) { x = %s; } out <-- x + (c.ok ? %s : a); }"
+                % (lit(), rng.randrange(3), rng.choice(["a", lit(), "c.out"]), lit()))
+    if k == 6:     # array ports written element-wise, two-dimensional port reads
+        return ("template T(n) { signal input a[%d]; signal output out; component c = X(%d); for (var i = 0; i < %d; i++) { c.in[i] <== a[i] * a[i]; } out <-- c.m[%s][%d] %s; }"
+                % (n, n, n, rng.choice(["0", "n", "a[0]"]), rng.randrange(2), rng.choice(["", "* a[0]", "+ c.m[0][0] * c.m[1][1]"])))
+    if k == 7:     # a constraint on ports; a port in a dimension-free table read
+        return ("template T() { signal input a; signal output out; component c = X(); component d = Y(%s); c.in <== a; d.in <== c.out * a; out <== d.out * %s; c.out === d.out %s a; }"
+                % (lit(), rng.choice(["a", "c.out", "d.out", "2"]), rng.choice(["*", "+"])))
+    return ("template T(n) { signal input a; signal output out; var t[2] = [%s, a]; component c = X(); c.in <== t[1]; t[%d] = c.out * c.out; out <-- t[%s]%s; }"
+            % (lit(), rng.randrange(2), rng.choice(["0", "1", "n"]), rng.choice(["", " * c.out", " * a"])))
+
+
+def dimension_shape(rng, lit, k=None):
+    """Dimensions that read variables: locals (assigned once or several times, so that the dimension needs a version
+    and, where its value is a known constant, carries a value claim), parameters, loop counters; arrays of variables,
+    of signals, of components."""
+    k = rng.randrange(7) if k is None else k
+    sm = lambda: str(rng.randrange(1, 4))
+    if k == 0:     # the dimension reads a local assigned twice
+        return ("function f(x) { var n = %s; n = n + %s; var t[n]; t[0] = n; if (t[0] == %s) { return 1; } return t[0] + n; }" % (sm(), sm(), sm()))
+    if k == 1:     # ... a local that is merged at a join (no constant), then a second dimension from a constant
+        return ("template T(m) { signal input a; signal output out; var n = %s; if (m > %s) { n = n + 1; } var t[n]; var k = %s; k += 1; signal s[k + 1]; t[0] = a * a; out <-- t[0] * %s; }"
+                % (sm(), sm(), sm(), rng.choice(["a", "n", "k"])))
+    if k == 2:     # a declaration inside a loop, the dimension reads the counter
+        return ("function f(n) { var acc = 0; for (var i = 1; i < %s; i++) { var t[i]; t[0] = i; acc += t[0]; } var w = %s; w = w * 2; var u[w][w + 1]; return acc + w; }" % (rng.choice(["3", "n"]), sm()))
+    if k == 3:     # signal arrays sized by a local / a parameter expression
+        return ("template T(n) { var k = %s; k = k * %s; signal input in[k]; signal output out[n + 1]; signal mid[k - 1][2]; out[0] <-- in[0] * in[1]; }" % (sm(), sm()))
+    if k == 4:     # component arrays sized by a variable
+        return ("template T(n) { signal input a; signal output out; var k = %s; k++; component c[k]; component d[n * 2]; c[0] = X(k); c[0].in <== a; out <-- c[0].out * %s; }"
+                % (sm(), rng.choice(["a", "k", "c[0].out"])))
+    if k == 5:     # a dimension computed with operators on boundary constants
+        op = rng.choice(["+", "-", "*", "\\", "%", "&", "|", ">>", "<<"])
+        return ("function f() { var a = %s; var b = %s; var n = a %s b; var t[n]; var u[(n %s 1)]; if (n == %s) { return 1; } return n; }" % (lit(), lit(), op, rng.choice(["+", "*", "-"]), lit()))
+    return ("template T(n) { signal input a; signal output out; var k = n; k = k + %s; var t[k]; for (var i = 0; i < k; i++) { t[i] = a; } out <-- t[0] %s; }" % (sm(), rng.choice(["", "* a", "* a * a"])))
+
+
+def nested_signal_shape(rng, lit, k=None):
+    """Signals (and components) declared under control flow: in a branch, in a loop body, in a nested block."""
+    k = rng.randrange(6) if k is None else k
+    sm = lambda: str(rng.randrange(0, 4))
+    pw = lambda x: rng.choice(["%s" % x, "%s * %s" % (x, x), "%s * %s * %s" % (x, x, x), "%s + a" % x, "%s * a" % x])
+    if k == 0:
+        return ("template T(n) { signal input a; signal output out; if (n > %s) { signal s; s <-- a * a; out <-- %s; } else { signal u; u <== a + 1; out <-- %s; } }" % (sm(), pw("s"), pw("u")))
+    if k == 1:
+        return ("template T(n) { signal input a; signal output out; var x = %s; for (var i = 0; i < %s; i++) { signal s; s <-- x * a; x = x + s * s; } out <-- x; }" % (lit(), rng.choice(["2", "n", "1"])))
+    if k == 2:
+        return ("template T(n) { signal input a; signal output out; var x = 1; if (a == %s) { signal s <== a * a; x = s; } out <-- x * %s; }" % (sm(), rng.choice(["a", "x", "2"])))
+    if k == 3:
+        return ("template T(n) { signal input a; signal output out; var i = 0; while (i < n) { if (i == %s) { signal s[2]; s[0] <-- a; s[1] <-- s[0] * a; out <-- %s; } i += 1; } }" % (sm(), pw("s[1]")))
+    if k == 4:
+        return ("template T(n) { signal input a; signal output out; if (n == %s) { component c = X(n); c.in <== a; signal s <== c.out * a; out <-- %s; } }" % (sm(), pw("s")))
+    return ("template T(n) { signal input a; signal output out; var x = a; { signal s; s <== x * x; { signal u; u <-- s * %s; x = u; } } out <-- %s; }" % (rng.choice(["a", "s", "2"]), pw("x")))
+
+
+def signal_loop_shape(rng, lit, k=None):
+    """Loops whose trip count depends on a signal: the header phis must not be claimed a low degree, while values
+    computed in or behind the loop that do not depend on the number of iterations keep their degree."""
+    k = rng.randrange(6) if k is None else k
+    sm = lambda: str(rng.randrange(0, 4))
+    inv = rng.choice(["a", "a * a", "a + 1", "a * 2", "a * a + a"])
+    use = rng.choice(["y", "y * a", "y + x", "x", "x * a", "y + i"])
+    if k == 0:
+        return ("template T() { signal input a; signal output b; var i = 0; var x = 1; var y = 0; while (i < a) { y = %s; x = x %s a; i += 1; } b <-- %s; }"
+                % (inv, rng.choice(["*", "+"]), use))
+    if k == 1:     # a for loop bounded by a signal, with a branch on the counter inside
+        return ("template T(n) { signal input a; signal output b; var x = %s; var y = a; for (var i = 0; i < a; i++) { if (i == %s) { x = %s; } y = %s; } b <-- %s; }"
+                % (lit(), sm(), rng.choice(["a", "a * a", lit()]), inv, use.replace("+ i", "+ 1")))
+    if k == 2:     # the bound is a signal for the inner loop only
+        return ("template T(n) { signal input a; signal output b; var x = 0; var y = 0; for (var j = 0; j < %s; j++) { var i = 0; while (i < a) { x = x + %s; i += 1; } y = y + %s; } b <-- %s; }"
+                % (rng.choice(["2", "n", "3"]), rng.choice(["1", "a", "j"]), inv, use.replace("+ i", "+ 1")))
+    if k == 3:     # exit condition on an accumulated value
+        return ("template T() { signal input a; signal output b; var x = a; var y = 1; var i = 0; while (x != %s && i < 4) { x = x - 1; y = %s; i += 1; } b <-- %s; }" % (sm(), inv, use))
+    if k == 4:     # loop on a signal, then a constant-bounded loop over the result
+        return ("template T(n) { signal input a; signal output b; var i = 0; while (i < a) { i += 1; } var x = 0; var y = %s; for (var j = 0; j < 2; j++) { x = x + i; y = y * a; } b <-- %s; }" % (lit(), use.replace("+ i", "+ 1")))
+    return ("function f(a, n) { var i = 0; var x = 1; var y = 0; while (i < a) { y = a * %s; x = x * 2; i += 1; } if (y == %s) { return x; } return y + %s; }" % (rng.choice(["a", "n", "2"]), lit(), rng.choice(["x", "i", "a"])))
+
+
+FEATURE_SHAPES = [(component_shape, 9), (dimension_shape, 7), (nested_signal_shape, 6), (signal_loop_shape, 6)]
+
+
+def feature_stratum(rng, curve="BN254"):
+    """One program of every hand shape of the four feature families (components, dimensions that read variables,
+    signals declared under control flow, loops bounded by a signal), with random details: part of every run."""
+    p = PRIMES[curve]
+    lit = lambda: str(rng.choice([0, 1, 2, 3, 5, p - 1, p // 2, p // 2 + 1, 255, 256, 1 << 20]))
+    return [f(rng, lit, k) for f, n in FEATURE_SHAPES for k in range(n)]
+
+
 def targeted(rng, curve="BN254"):
     """Hand-shaped programs aimed at known weak spots (phi without default path,
     values merged at joins, loops, every operator on constants)."""
     p = PRIMES[curve]
     lit = lambda: str(rng.choice([0, 1, 2, 3, 5, p - 1, p // 2, p // 2 + 1, 255, 256, 1 << 20]))
-    k = rng.randrange(26)
+    k = rng.randrange(38)
+    if k >= 35:
+        return signal_loop_shape(rng, lit)
+    if k >= 32:
+        return nested_signal_shape(rng, lit)
+    if k >= 29:
+        return dimension_shape(rng, lit)
+    if k >= 26:
+        return component_shape(rng, lit)
     if k >= 22:    # a branch or loop that is the LAST statement of an outer branch: the outer join gets the inner
         #            predecessors directly, and every condition on the way decides which definition is merged
         sm = lambda: str(rng.randrange(0, 5))
